@@ -266,8 +266,31 @@ def cond_formula(n, classify):
         if callee.get('kind') == 'MemberExpr' and (callee.get('name') or '').startswith('operator bool') and len(kids(callee)) == 1:
             return cond_formula(kids(callee)[0], classify)
     if k == 'DeclRefExpr':
-        return ('atom', 'v_' + str((n.get('referencedDecl') or {}).get('id', _atom_key(n))))
+        did = (n.get('referencedDecl') or {}).get('id')
+        if did in _NAMED_TESTS:
+            # a test named in a `const bool` local: its value is the initialiser's (evaluated where the local is declared;
+            # the atoms are reads of locals and of node fields under the mutex, as for every test)
+            return cond_formula(_NAMED_TESTS[did], classify)
+        return ('atom', 'v_' + str(did if did is not None else _atom_key(n)))
     return ('atom', _atom_key(n))
+
+
+_NAMED_TESTS = {}
+
+
+def _collect_named_tests(body):
+    """{decl id: initialiser} of the `const bool` locals of a function body"""
+    out = {}
+    written = set()
+    for x in walk(body):
+        if x.get('kind') in ('BinaryOperator', 'CompoundAssignOperator') and (x.get('opcode') or '').endswith('=') and x.get('opcode') not in ('==', '!=', '<=', '>='):
+            lhs = strip(kids(x)[0]) if kids(x) else {}
+            if lhs.get('kind') == 'DeclRefExpr':
+                written.add((lhs.get('referencedDecl') or {}).get('id'))
+    for v in walk(body):
+        if v.get('kind') == 'VarDecl' and (v.get('type') or {}).get('qualType') in ('const bool', 'bool') and kids(v) and v.get('id') not in written:
+            out[v.get('id')] = kids(v)[-1]
+    return out
 
 
 def _atoms(f, acc):
@@ -328,6 +351,8 @@ def reached_under(body, classify, is_target):
     code behind the loop under the path condition in front of it (the negated test is not used).  Tests are assumed free
     of side effects on the atoms (they are reads of locals and of node fields under the mutex)."""
     out = []
+    _NAMED_TESTS.clear()
+    _NAMED_TESTS.update(_collect_named_tests(body))
 
     def expr_targets(e, pc):
         """targets inside an expression; the right operand of && / || and the arms of ?: are reached conditionally"""
